@@ -22,6 +22,7 @@ import (
 	"crypto"
 	"errors"
 	"fmt"
+	ssi "github.com/nuts-foundation/go-did"
 	"github.com/nuts-foundation/go-did/did"
 	"github.com/nuts-foundation/nuts-node/crypto/hash"
 	"strings"
@@ -81,11 +82,11 @@ func (r DIDKeyResolver) ResolveKeyByID(keyID string, metadata *ResolveMetadata, 
 	for _, rel := range relationships {
 		localKeyId := rel.ID.String()
 		if localKeyId == keyID {
-			return rel.PublicKey()
+			return publicKeyOf(rel.VerificationMethod)
 		} else if baseUrl != nil && strings.HasPrefix(localKeyId, "#") {
 			localKeyId = *baseUrl + localKeyId
 			if localKeyId == keyID {
-				return rel.PublicKey()
+				return publicKeyOf(rel.VerificationMethod)
 			}
 		}
 	}
@@ -124,11 +125,20 @@ func (r DIDKeyResolver) ResolveKey(id did.DID, validAt *time.Time, relationType 
 	if len(keys) == 0 {
 		return "", nil, ErrKeyNotFound
 	}
-	publicKey, err := keys[0].PublicKey()
+	publicKey, err := publicKeyOf(keys[0].VerificationMethod)
 	if err != nil {
 		return "", nil, err
 	}
 	return keys[0].ID.String(), publicKey, nil
+}
+
+// publicKeyOf returns the public key of the verification method. Documents of other DID methods are not validated:
+// did.VerificationMethod.PublicKey() dereferences the absent key of a JsonWebKey2020 method without publicKeyJwk.
+func publicKeyOf(method *did.VerificationMethod) (crypto.PublicKey, error) {
+	if method == nil || (method.Type == ssi.JsonWebKey2020 && method.PublicKeyJwk == nil) {
+		return nil, errors.New("verification method has no public key")
+	}
+	return method.PublicKey()
 }
 
 func resolveRelationships(doc *did.Document, relationType RelationType) (relationships did.VerificationRelationships, err error) {
